@@ -111,3 +111,21 @@ claim(
     "abstract interpretation on concrete-shape arrays of free symbols; polynomial identity between reduced and resolved records; finite decision tables",
     "DESIGN.md §5 C16",
 )
+
+claim(
+    "C26",
+    "other",
+    "Decides what each constraint applier of the placement solver writes, per axis / side / option value, by abstract interpretation against an opaque recording grid: size constraint -> cells(axis, extent(other_axis, other's slice on other_axis)*proportion + offset + grid_offset*spacing); position constraint -> bounds_for_anchor(axis, own size, anchor(axis, other's slice on axis, other_pos) + margin + grid_margin*spacing, own_pos); extension -> snapped anchor of the other object or the volume face of that direction, other side untouched; grid/real coordinate constraints -> given edge on the stated side; shape<->slice bookkeeping b1-b0=size. Set-once discipline per applier on three slot states (empty -> written, equal -> untouched and no error, different -> error, never overwritten). Final validation accepts exactly v1<=s1<s2<=v2 (exhaustive over order types of four integers per axis) and flags unresolved bounds; appliers' exceptions become error entries, every constraint class has its dispatch arm, place_objects raises on any error; extension to the volume writes only 0 / volume size into empty slots. Snapping arithmetic inside the grid helpers is not decided here (C37).",
+    TB + "; opaque recording grid (geometric helpers as uninterpreted functions); finite option tables with concrete non-trivial margins/offsets",
+    "abstract interpretation of the constraint appliers against uninterpreted grid functions; finite-state set-once typestate check; exhaustive order-type enumeration; syntax-tree dispatch/guard rules",
+    "DESIGN.md §5 C26",
+)
+
+claim(
+    "C27",
+    "other",
+    "Narrow: confluence of the placement fixpoint is not decided. Decided are the clauses order-independence rests on: every applier and both bookkeeping passes obey the set-once discipline (empty -> written, equal -> untouched, different -> error, never an overwrite), so a slot's final value cannot depend on which constraint reached it first; extension to the volume and the unresolved-object handler are reached only after a sweep that changed nothing; the sweep over constraints has no break/return/continue and catches applier exceptions without ending; _extend_to_inf_if_possible returns identical slices under every permutation of the object map and the constraint list on three small systems (extension constraints both ways, pending and resolved position constraints, size-only objects).",
+    TB + "; opaque recording grid of C26; syntax-tree guard extraction for the fixpoint loop",
+    "finite-state set-once typestate check by abstract interpretation; syntax-tree control-dependence rules; permutation enumeration by abstract interpretation",
+    "DESIGN.md §5 C27",
+)
